@@ -861,32 +861,35 @@ Section Ins.
   Lemma abs_dflt (h : hugr) p : dflt (abs h) p = match p with Some x => x | None => root h end.
   Proof. reflexivity. Qed.
 
-  Theorem bstep_WF h c h' rt r g' : Inv h -> WF h -> bstep h c = (h', rt, r) ->
-    s_bstep (abs h) c rt = Next g' -> WF h'.
+  Theorem bstep_WF_rep h g c h' rt r g' : Inv h -> Rep h g -> WF h -> bstep h c = (h', rt, r) ->
+    s_bstep g c rt = Next g' -> WF h'.
   Proof.
-    intros HI HW Hb Hs.
+    intros HI HR HW Hb Hs.
+    assert (Hdf : forall p, dflt g p = match p with Some x => x | None => root h end).
+    { intros [x|]; [reflexivity|]. cbn. destruct HR as (_ & _ & _ & E). now rewrite E. }
     assert (Hgen : (forall o p k m, c <> AddNode o p k m) -> (forall o p m, c <> AddConst o p m) -> WF h').
-    { intros Hn1 Hn2. pose proof (bstep_refines h (abs h) c h' rt r HI (Rep_abs h) Hb) as H. rewrite Hs in H.
+    { intros Hn1 Hn2. pose proof (bstep_refines h g c h' rt r HI HR Hb) as H. rewrite Hs in H.
       destruct H as (_ & _ & HR'). apply (WF_ext h); [|exact HW]. intros x d' E.
       pose proof (get_refines h' g' x HR') as Hx. rewrite E in Hx. cbn in Hx. symmetry in Hx.
-      destruct (s_bstep_back (abs h) c rt g' x _ ltac:(apply Rep_abs) Hs Hn1 Hn2 Hx) as (a & Ea & Pa).
-      pose proof (get_refines h (abs h) x (Rep_abs h)) as Hx0. rewrite Ea in Hx0.
+      destruct (s_bstep_back g c rt g' x _ ltac:(apply HR) Hs Hn1 Hn2 Hx) as (a & Ea & Pa).
+      pose proof (get_refines h g x HR) as Hx0. rewrite Ea in Hx0.
       destruct (get_node h x) as [d|]; [|discriminate]. exists d. split; [reflexivity|].
       cbn in Hx0. injection Hx0 as <-. exact Pa. }
     destruct c as [o p k m|o p m|s t|y z|s t|n]; try (apply Hgen; intros; discriminate).
-    - cbn [bstep s_bstep] in *. destruct (a_live (abs h) (dflt (abs h) p)) eqn:Hp; [|discriminate].
-      apply abs_live in Hp. rewrite abs_dflt in Hp.
+    - cbn [bstep s_bstep] in *. destruct (a_live g (dflt g p)) eqn:Hp; [|discriminate].
+      pose proof Hp as Hp'. apply (rep_live h g _ HR) in Hp'. rewrite Hdf in Hp'.
       destruct (add_node h o p k m) as [[h1 n1] r1] eqn:E. injection Hb as <- <- <-.
-      destruct (add_node_refines h (abs h) o p k m HI (Rep_abs h)) as (h2 & n2 & E2 & _).
-      { apply abs_live. now rewrite abs_dflt. }
+      destruct (add_node_refines h g o p k m HI HR Hp) as (h2 & n2 & E2 & _).
       rewrite E in E2. injection E2 as <- <- ->. unfold add_node in E. eapply add_node_WF; eassumption.
-    - cbn [bstep s_bstep] in *. destruct (a_live (abs h) (dflt (abs h) p)) eqn:Hp; [|discriminate].
-      apply abs_live in Hp. rewrite abs_dflt in Hp.
+    - cbn [bstep s_bstep] in *. destruct (a_live g (dflt g p)) eqn:Hp; [|discriminate].
+      pose proof Hp as Hp'. apply (rep_live h g _ HR) in Hp'. rewrite Hdf in Hp'.
       destruct (add_node h o p None m) as [[h1 n1] r1] eqn:E. injection Hb as <- <- <-.
-      destruct (add_node_refines h (abs h) o p None m HI (Rep_abs h)) as (h2 & n2 & E2 & _).
-      { apply abs_live. now rewrite abs_dflt. }
+      destruct (add_node_refines h g o p None m HI HR Hp) as (h2 & n2 & E2 & _).
       rewrite E in E2. injection E2 as <- <- ->. unfold add_node in E. eapply add_node_WF; eassumption.
   Qed.
+  Theorem bstep_WF h c h' rt r g' : Inv h -> WF h -> bstep h c = (h', rt, r) ->
+    s_bstep (abs h) c rt = Next g' -> WF h'.
+  Proof. intros HI HW. exact (bstep_WF_rep h (abs h) c h' rt r g' HI (Rep_abs h) HW). Qed.
 
   Lemma init_WF o m : WF (init o m).
   Proof.
@@ -1177,4 +1180,150 @@ Section Ins.
     - rewrite a_upd_links, (sh_links _ _ _ _ _ HS). exact HLA.
     - rewrite a_upd_root, (sh_root _ _ _ _ _ HS). exact HRA.
   Qed.
+
+  Lemma NoDup_values (m : mapping) : NoDup (map fst m) ->
+    (forall c1 c2 v, mget m c1 = Some v -> mget m c2 = Some v -> c1 = c2) -> NoDup (map snd m).
+  Proof.
+    induction m as [|[c v] r IH]; cbn [map fst snd]; intros Hk Hinj; [constructor|]. inversion Hk; subst.
+    constructor.
+    - intros Hin. apply in_map_iff in Hin. destruct Hin as ([c2 v2] & E & Hin). cbn in E. subst v2.
+      assert (Hc2 : In c2 (map fst r)) by (change c2 with (fst (c2, v)); now apply in_map).
+      assert (c2 <> c) by (intros ->; contradiction).
+      assert (c = c2); [|congruence]. apply (Hinj c c2 v).
+      + cbn. now rewrite Nat.eqb_refl.
+      + cbn. destruct (Nat.eqb_spec c2 c); [contradiction|]. now apply (dget_In_iff Nat.eqb Nat.eqb_spec).
+    - apply IH; [assumption|]. intros c1 c2 v0 E1 E2.
+      assert (Hin1 : In c1 (map fst r)) by (eapply (dget_In Nat.eqb Nat.eqb_spec); eassumption).
+      assert (Hin2 : In c2 (map fst r)) by (eapply (dget_In Nat.eqb Nat.eqb_spec); eassumption).
+      apply (Hinj c1 c2 v0); cbn.
+      + destruct (Nat.eqb_spec c1 c) as [->|]; [contradiction|exact E1].
+      + destruct (Nat.eqb_spec c2 c) as [->|]; [contradiction|exact E2].
+  Qed.
+  Lemma mget_keys (m : mapping) c : In c (map fst m) <-> mget m c <> None.
+  Proof.
+    split.
+    - induction m as [|[k v] r IH]; cbn; [tauto|]. destruct (Nat.eqb_spec c k) as [->|]; [discriminate|].
+      intros [E|H]; [congruence|auto].
+    - intros H. destruct (mget m c) eqn:E; [|congruence]. eapply (dget_In Nat.eqb Nat.eqb_spec); eassumption.
+  Qed.
+
+  Theorem insert_rep (A B : hugr) gA gB (parent : option nid) :
+    let p := match parent with Some x => x | None => root A end in
+    Inv A -> Inv B -> WF B -> Rep A gA -> Rep B gB -> get_node A p <> None ->
+    exists A' m, insert_hugr A B parent = (A', m, Ok) /\ Inv A' /\
+                 mapping_ok gA gB m = true /\ Rep A' (s_insert gA gB m p).
+  Proof.
+    intros p HIA HIB HWF HRA HRB HpA.
+    destruct (phase12 A B parent HIA HIB HWF HpA) as (A1 & A2 & m & Hins & Hcc & HS). fold p in HS.
+    pose proof (shape_inv A B p m A2 HIA HIB HpA HS) as HI2.
+    pose proof (shape_rep A B gA gB p m A2 HIA HIB HRA HRB HpA HS) as HR2.
+    destruct (copy_links_rep m (q_links B) A2 _ HI2 HR2) as (A3 & Hcl & HI3 & HR3 & _).
+    { intros s t Hin. destruct HIB as (_ & _ & HCB & _). destruct (HCB s t Hin) as ((bs & E & Bd) & (bt & E2 & Bd2)).
+      assert (Hm : forall c b, get_node B c = Some b -> exists c', mget m c = Some c' /\ get_node A2 c' <> None).
+      { intros c b Eb. destruct (mget m c) as [c'|] eqn:Em; [|exfalso; apply (proj2 (sh_dom _ _ _ _ _ HS c)); congruence].
+        exists c'. split; [reflexivity|]. destruct (sh_copy _ _ _ _ _ HS c c' b Em Eb) as (d' & Ed' & _). congruence. }
+      split; [eapply Hm; eassumption|]. split; [eapply Hm; eassumption|]. lia. }
+    exists A3, m. unfold insert_hugr. rewrite Hins, Hcc, Hcl. split; [reflexivity|]. split; [exact HI3|]. split.
+    - unfold mapping_ok. pose proof (sh_keys _ _ _ _ _ HS) as Hk.
+      pose proof (NoDup_values m Hk (sh_inj _ _ _ _ _ HS)) as Hv.
+      destruct (nodupb_spec Nat.eqb Nat.eqb_spec (map fst m)); [|contradiction].
+      destruct (nodupb_spec Nat.eqb Nat.eqb_spec (map snd m)); [|contradiction]. cbn [andb].
+      destruct HRB as (HNB & _). destruct HRA as (HNA & _).
+      assert (Hset : seteq_b Nat.eqb (map fst m) (map fst (a_nodes gB)) = true).
+      { unfold seteq_b, incl_b. apply andb_true_iff. split; apply forallb_forall; intros c Hc.
+        - destruct (mem_spec Nat.eqb Nat.eqb_spec c (map fst (a_nodes gB))) as [|Hn]; [reflexivity|]. exfalso. apply Hn.
+          apply mget_keys in Hc. apply (sh_dom _ _ _ _ _ HS) in Hc. specialize (HNB c).
+          destruct (get_node B c); [|congruence]. cbn in HNB. symmetry in HNB. eapply (dget_In Nat.eqb Nat.eqb_spec); eassumption.
+        - destruct (mem_spec Nat.eqb Nat.eqb_spec c (map fst m)) as [|Hn]; [reflexivity|]. exfalso. apply Hn.
+          apply mget_keys. apply (sh_dom _ _ _ _ _ HS). apply aget_in in Hc. rewrite <- HNB in Hc.
+          destruct (get_node B c); [discriminate|]. exfalso. now apply Hc. }
+      rewrite Hset. cbn [andb]. apply forallb_forall. intros v Hvin. apply in_map_iff in Hvin.
+      destruct Hvin as ([c v'] & E & Hin). cbn in E. subst v'.
+      apply (dget_In_iff Nat.eqb Nat.eqb_spec) in Hin; [|exact Hk].
+      unfold a_live. rewrite <- HNA, (sh_fresh _ _ _ _ _ HS c v Hin). reflexivity.
+    - rewrite s_insert_eq. eapply Rep_fold_perm; [|exact HR3]. apply Permutation_map. now destruct HRB as (_ & _ & HL & _).
+  Qed.
+
+  (* one command of a full history (insert_hugr carries the model's own trace of the source history) *)
+  Definition annot_ok (c : cmd Op Meta) : Prop :=
+    match c with
+    | Basic _ => True
+    | Insert o m br src _ => br = 0 /\ src = trace (init o m) (map fst src)
+    end.
+
+  Lemma brun_refines_wf cs : forall h g g', Inv h -> WF h -> Rep h g ->
+    s_brun g (trace h cs) = Next g' -> Inv (brun h cs) /\ WF (brun h cs) /\ Rep (brun h cs) g'.
+  Proof.
+    induction cs as [|c cs IH]; intros h g g' HI HW HR; cbn [trace s_brun brun fold_left].
+    - intros [= <-]. auto.
+    - destruct (bstep h c) as [[h1 rt] r] eqn:E. cbn [s_brun fst].
+      pose proof (bstep_refines h g c h1 rt r HI HR E) as Hs.
+      destruct (s_bstep g c rt) as [| |g1] eqn:Es; try discriminate.
+      destruct Hs as (_ & HI1 & HR1). intros H.
+      exact (IH h1 g1 g' HI1 (bstep_WF_rep h g c h1 rt r g1 HI HR HW E Es) HR1 H).
+  Qed.
+
+  Theorem step_refines h g c h' rt r : Inv h -> WF h -> Rep h g -> annot_ok c -> step h c = (h', rt, r) ->
+    match s_step g c rt with
+    | OutOfScope => True
+    | Bad => False
+    | Next g' => r = Ok /\ Inv h' /\ WF h' /\ Rep h' g'
+    end.
+  Proof.
+    intros HI HW HR Han Hst. destruct c as [b|o m br src p]; cbn [step s_step] in *.
+    - pose proof (bstep_refines h g b h' rt r HI HR Hst) as H.
+      destruct (s_bstep g b rt) as [| |g'] eqn:Es; try exact H.
+      destruct H as (Hr & HI' & HR'). split; [exact Hr|]. split; [exact HI'|]. split; [|exact HR'].
+      exact (bstep_WF_rep h g b h' rt r g' HI HR HW Hst Es).
+    - destruct Han as [-> Hsrc].
+      destruct (s_brun (s_init 0 o m) src) as [| |gB] eqn:EB; try exact I.
+      destruct (a_live g (dflt g p)) eqn:Hp; [|exact I].
+      destruct (init_inv o m) as [HI0 HR0]. rewrite Hsrc in EB.
+      destruct (brun_refines_wf (map fst src) (init o m) _ gB HI0 (init_WF o m) HR0 EB) as (HIB & HWB & HRB).
+      assert (Hdf : dflt g p = match p with Some x => x | None => root h end).
+      { destruct p; [reflexivity|]. cbn. destruct HR as (_ & _ & _ & E). now rewrite E. }
+      assert (HpA : get_node h (match p with Some x => x | None => root h end) <> None).
+      { rewrite <- Hdf. now apply (rep_live h g _ HR). }
+      destruct (insert_rep h (brun (init o m) (map fst src)) g gB p HI HIB HWB HR HRB HpA) as (A' & mp & Hins & HI' & Hmok & HR').
+      rewrite Hins in Hst. injection Hst as <- <- <-. rewrite Hmok. split; [reflexivity|]. split; [exact HI'|].
+      split; [|now rewrite Hdf].
+      destruct (insert_ok h (brun (init o m) (map fst src)) p HI HIB HWB HpA) as (A'' & mp' & Hins' & _ & HIF).
+      rewrite Hins in Hins'. injection Hins' as <- <-.
+      exact (insert_WF h _ _ mp A' HI HIB HpA HW HWB HIF).
+  Qed.
+
+  Fixpoint ctrace (h : hugr) (cs : list (cmd Op Meta)) : list (cmd Op Meta * ret) :=
+    match cs with
+    | [] => []
+    | c :: r => let '(h', rt, _) := step h c in (c, rt) :: ctrace h' r
+    end.
+  Fixpoint s_run (g : agraph) (l : list (cmd Op Meta * ret)) : sres Op Meta :=
+    match l with
+    | [] => Next g
+    | (c, rt) :: r => match s_step g c rt with Next g' => s_run g' r | e => e end
+    end.
+  Theorem run_refines cs : forall h g g', Inv h -> WF h -> Rep h g -> Forall annot_ok cs ->
+    s_run g (ctrace h cs) = Next g' -> Inv (run h cs) /\ WF (run h cs) /\ Rep (run h cs) g'.
+  Proof.
+    induction cs as [|c cs IH]; intros h g g' HI HW HR Han; cbn [ctrace s_run run fold_left].
+    - intros [= <-]. auto.
+    - inversion Han; subst. destruct (step h c) as [[h1 rt] r] eqn:E. cbn [s_run fst].
+      pose proof (step_refines h g c h1 rt r HI HW HR H1 E) as Hs.
+      destruct (s_step g c rt) as [| |g1]; try discriminate.
+      destruct Hs as (_ & HI1 & HW1 & HR1). intros H. exact (IH h1 g1 g' HI1 HW1 HR1 H2 H).
+  Qed.
+  Theorem run_never_bad cs : forall h g, Inv h -> WF h -> Rep h g -> Forall annot_ok cs -> s_run g (ctrace h cs) <> Bad.
+  Proof.
+    induction cs as [|c cs IH]; intros h g HI HW HR Han; cbn [ctrace s_run]; [discriminate|].
+    inversion Han; subst. destruct (step h c) as [[h1 rt] r] eqn:E. cbn [s_run].
+    pose proof (step_refines h g c h1 rt r HI HW HR H1 E) as Hs.
+    destruct (s_step g c rt) as [| |g1]; [discriminate|contradiction|].
+    destruct Hs as (_ & HI1 & HW1 & HR1). now apply IH.
+  Qed.
+  Theorem store_refines_spec o m cs g' : Forall annot_ok cs ->
+    s_run (s_init 0 o m) (ctrace (init o m) cs) = Next g' ->
+    Inv (run (init o m) cs) /\ WF (run (init o m) cs) /\ Rep (run (init o m) cs) g'.
+  Proof. destruct (init_inv o m) as [HI HR]. exact (run_refines cs _ _ g' HI (init_WF o m) HR). Qed.
+  Theorem spec_never_rejects o m cs : Forall annot_ok cs -> s_run (s_init 0 o m) (ctrace (init o m) cs) <> Bad.
+  Proof. destruct (init_inv o m) as [HI HR]. exact (run_never_bad cs _ _ HI (init_WF o m) HR). Qed.
 End Ins.
